@@ -282,6 +282,8 @@ func c13Check(c *Ctx, in FedInput, res *CaseResult, feats map[string]bool, exclu
 	if len(fails) == 0 && (len(in.Query)%37 == 0) {
 		res.Sample = map[string]interface{}{"query": in.Query, "requests": total, "follow_ups": len(gotIDs)}
 	}
+	// L1: the plan the requests came from against the planner model
+	fails = append(fails, PlanCorrFails(c, fc, in)...)
 	return fails
 }
 
